@@ -84,10 +84,23 @@ Definition check_full (c : case) : list nat :=
     | _, _ => [3]
     end) (c_full c).
 
+Definition no_disagree (a b : option Q) : bool := match cmp_oq a b with 1 => false | _ => true end.
+
 Definition check_reassign (c : case) : list nat :=
+  let l := c_stmts c in
   flat_map (fun p =>
     let '(s, e, r) := p in
-    tag3 (stmts_agree 2 (envs_of c) (reassign (c_stmts c) s e) r) 4 1004) (c_reassign c).
+    tag3 (stmts_agree 2 (envs_of c) (reassign l s e) r) 4 1004 ++
+    (* the property on the implementation's answer: symbols outside the taint of the edit keep their value *)
+    tag (forallb (fun rho => forallb (fun x => memp x (reassign_taint l s) ||
+                                              no_disagree (exec std_fi std_ode rho r x) (exec std_fi std_ode rho l x))
+                                     (all_defs l)) (envs_of c)) 27 ++
+    (* ... and s gets the value of the new expression at the position of its last assignment *)
+    (if g_not_overwritten l s
+     then tag (forallb (fun rho => no_disagree (exec std_fi std_ode rho r s)
+                                     (eval (exec std_fi std_ode rho (before_last_assignment l s)) std_fi e))
+                       (envs_of c)) 28
+     else [])) (c_reassign c).
 
 Definition defined_change (a b : option Q) : bool :=
   (* value in the original program is defined and the new one differs or is undefined *)
@@ -122,7 +135,20 @@ Definition check_subs (c : case) : list nat :=
                                                           (exec std_fi std_ode (upd_map rho std_fi m) l x) with
                                              | 1 => false | _ => true end
                                    end) (all_defs l)) (envs_of c)) 17
-     else [203])) (c_subs c).
+     else [203]) ++
+    (* renaming an assigned symbol to a fresh one *)
+    match m with
+    | [(a, Sym z)] =>
+        if g_rename a z l
+        then tag (forallb (fun rho =>
+                    let rho' := upd rho z (rho a) in
+                    no_disagree (exec std_fi std_ode rho' r z) (exec std_fi std_ode rho l a) &&
+                    forallb (fun x => Pos.eqb x a || Pos.eqb x z ||
+                                      no_disagree (exec std_fi std_ode rho' r x) (exec std_fi std_ode rho l x))
+                            (all_defs l)) (envs_of c)) 29
+        else []
+    | _ => []
+    end) (c_subs c).
 
 Definition guard_tags (c : case) : list nat :=
   tag (g_def_before_use (c_stmts c)) 201 ++ tag (g_ssa (c_stmts c)) 202.
